@@ -188,6 +188,13 @@ func (r *Runner) Exec(t []string) string {
 			return infoLine(fi)
 		case "h.sync":
 			return fsErr(h.Sync())
+		case "h.copyfrom": // io.Copy(handle k, at most n bytes of handle j): io.ReaderFrom of k if it has it, Read on j and Write on k otherwise
+			hj := atoi(t[2])
+			if hj >= len(r.H) {
+				return "err:inval"
+			}
+			n, err := io.Copy(h, io.LimitReader(plainReader{r.H[hj]}, atoi64(t[3])))
+			return fmt.Sprintf("n=%d err:%s", n, ErrClass(err))
 		case "h.readdir":
 			fis, err := h.Readdir(atoi(t[2]))
 			if err != nil && ErrClass(err) != "eof" {
